@@ -88,7 +88,17 @@ def _as_int(v):
     return int(f)
 
 
+def _guard(fn, *a):
+    """Call a real function; an exception has no image in the specification's integers (-> -1 downstream)."""
+    try:
+        return fn(*a)
+    except Exception:  # noqa: BLE001
+        return None
+
+
 def _hundredths(frac):
+    if frac is None:
+        return -1
     f = float(frac) * 100.0
     r = round(f)
     return int(r) if abs(f - r) < 1e-9 else -1
@@ -105,9 +115,9 @@ def job_grid(arg):
     out = []
     for p in ps:
         a = p / 1000
-        mn = _as_int(m.get_minimum_reporting_units(a))
+        mn = _as_int(_guard(m.get_minimum_reporting_units, a))
         n0 = max(1, mn)
-        f100 = [_hundredths(m._compute_conf_frac(n, a)) for n in range(n0, max_n + 1)]
+        f100 = [_hundredths(_guard(m._compute_conf_frac, n, a)) for n in range(n0, max_n + 1)]
         out.append({"kind": "grid", "p": p, "min": mn, "n0": n0, "f100": f100})
     return out
 
@@ -496,10 +506,20 @@ def job_rank(arg):
         ks = []
         for n in range(1, max_n + 1):
             scores = rng.permutation(n) + 1  # distinct scores 1..n in random row order
-            conf = pd.DataFrame({f"last_election_results_{EST}": np.full(n, w)})
+            conf = pd.DataFrame(
+                {
+                    f"last_election_results_{EST}": np.full(n, w),
+                    # decoy columns a real conformalization frame also carries (unequal on purpose)
+                    f"results_{EST}": np.arange(1, n + 1) * 3 % 7 + 1,
+                    "baseline_weights": (np.arange(n) * 5) % 11 + 1,
+                }
+            )
             q = a * (1 + 1 / n)
-            v = model._compute_population_correction(conf, pd.Series(scores.astype(float)), q, EST)
-            ks.append(0 if (v is None or (isinstance(v, float) and math.isnan(v))) else _as_int(v))
+            try:
+                v = model._compute_population_correction(conf, pd.Series(scores.astype(float)), q, EST)
+                ks.append(0 if (v is None or (isinstance(v, float) and math.isnan(v))) else _as_int(v))
+            except Exception:  # noqa: BLE001
+                ks.append(-1)
         out.append({"kind": "rank", "p": p, "n0": 1, "ks": ks})
     return out
 
@@ -598,16 +618,19 @@ def job_corr_run(arg):
     seed, n_rep, n_non, pis, robust, features = arg
     pre, cur = gate_election(n_rep, n_non, seed, lo=20, hi=250)
     with CorrRecorder() as rec:
-        synth.run_client(
-            pre,
-            cur,
-            estimands=("turnout",),
-            pis=list(pis),
-            pi_method="nonparametric",
-            features=tuple(features),
-            model_parameters={"robust": bool(robust)},
-            aggregates=["postal_code", "unit"],
-        )
+        try:
+            synth.run_client(
+                pre,
+                cur,
+                estimands=("turnout",),
+                pis=list(pis),
+                pi_method="nonparametric",
+                features=tuple(features),
+                model_parameters={"robust": bool(robust)},
+                aggregates=["postal_code", "unit"],
+            )
+        except Exception as e:  # noqa: BLE001
+            return [{"kind": "raised", "exc": type(e).__name__, "msg": str(e)[:300], "args": list(arg), "tb": traceback.format_exc()[-1200:]}]
     return [corr_trace(c) for c in rec.calls]
 
 
@@ -717,15 +740,18 @@ def job_swing_run(arg):
     seed, n_rep, n_non, estimator = arg
     pre, cur = gate_election(n_rep, n_non, seed, lo=15, hi=400)
     with SwingRecorder() as rec:
-        synth.run_client(
-            pre,
-            cur,
-            estimands=("turnout",),
-            pis=(0.7,),
-            pi_method=estimator,
-            features=(),
-            aggregates=["postal_code", "unit"],
-        )
+        try:
+            synth.run_client(
+                pre,
+                cur,
+                estimands=("turnout",),
+                pis=(0.7,),
+                pi_method=estimator,
+                features=(),
+                aggregates=["postal_code", "unit"],
+            )
+        except Exception as e:  # noqa: BLE001
+            return [{"kind": "raised", "exc": type(e).__name__, "msg": str(e)[:300], "args": list(arg), "tb": traceback.format_exc()[-1200:]}]
     out = []
     for c in rec.calls:
         out.append(
